@@ -39,7 +39,13 @@ func init() {
 	vrtHarnesses["HarnessSSOContent"] = HarnessSSOContent
 	vrtHarnesses["HarnessSSOFaults"] = HarnessSSOFaults
 	vrtHarnesses["HarnessSSOPlacementSig"] = HarnessSSOPlacementSig
+	vrtHarnesses["HarnessSSOACSContent"] = HarnessSSOACSContent
+	vrtHarnesses["HarnessSSOACSFaults"] = HarnessSSOACSFaults
 }
+
+// pairs: a late validation or persistence failure for every consumer-endpoint shape
+func HarnessSSOACSContent() { vrtSSO(vrtSSOProfile{name: "acs x content", acs: true, content: true}) }
+func HarnessSSOACSFaults()  { vrtSSO(vrtSSOProfile{name: "acs x faults", acs: true, faults: true}) }
 
 func HarnessSSODecode()  { vrtSSO(vrtSSOProfile{name: "decode", placement: true}) }
 func HarnessSSOSig()     { vrtSSO(vrtSSOProfile{name: "signature", signature: true}) }
@@ -126,8 +132,9 @@ func vrtSSORequest(rb *vrtReq, method string, pf vrtSSOProfile, entityID string)
 			in.samlReq.bVal = vrtIteStr(in.msgB, in.encoded, garbage)
 		}
 	} else {
-		// nominal placement: a Redirect-binding GET or a POST-binding POST
+		// nominal placement: a Redirect-binding GET or a POST-binding POST, well-formed
 		vrtReqNoExtras(rb)
+		vrtAssume(!vrtBool("req.parsefail"))
 		rs := vrtStr("RelayState")
 		vrtAssume(rs != "") // nominal: a RelayState is sent (its absence belongs to the placement dimension)
 		if vrtChoice("binding", 2) == 0 {
@@ -147,6 +154,11 @@ func vrtSSORequest(rb *vrtReq, method string, pf vrtSSOProfile, entityID string)
 	}
 	if pf.signature {
 		in.sigAlg, in.sig = vrtSymParam("SigAlg"), vrtSymParam("Signature")
+		// one shape of special interest: a well-formed DSA signature container
+		// (base64 of the DER sequence of two positive integers)
+		dsaShaped := vrtBool("Signature.dsaShaped")
+		in.sig.qVal = vrtIteStr(dsaShaped, "MAYCAQECAQE=", in.sig.qVal)
+		in.sig.bVal = vrtIteStr(dsaShaped, "MAYCAQECAQE=", in.sig.bVal)
 	} else {
 		in.sigAlg, in.sig = absent, absent
 	}
@@ -247,6 +259,7 @@ func vrtSSO(pf vrtSSOProfile) {
 	}
 	st.sp = sp
 	st.created = &vrtAuthReq{id: vrtStr("created.id")}
+	vrtNominalSigAlg = !pf.faults
 	p := vrtNewProviderWith(st, pf.signature)
 
 	method := vrtStr("req.method")
